@@ -112,6 +112,9 @@ def renderRep : Rep → List Char
 /-- a simple pattern as the text of a regular expression -/
 def renderSimple (p : Simple) : List Char := p.flatMap fun it => renderCs it.1 ++ renderRep it.2
 
+/-- `'|'.join(...)` of the rendered alternatives -/
+def renderToken (t : Token) : List Char := joinBar (t.map renderSimple)
+
 /-- a plain name as a pattern: every character stands for itself -/
 def literal (name : List Char) : Simple := name.map fun c => (.lit c, .one)
 
